@@ -1256,6 +1256,26 @@ def check_json_family(run, prop, replay=None):
                 return False
         return False
     corr = [t for t in corr if not corr_known(t)]
+    # XB lines: a nullable object component as the request body itself (not modelled; expectations written by hand)
+    if prop == "C08":
+        nxb = 0
+        for i, c in enumerate(cases):
+            if not c.startswith("XB ") or impl[i].startswith("SKIP"):
+                continue
+            nxb += 1
+            f = c.split(" ")
+            exp = re.search(r"#exp=(\S+)", c).group(1)
+            ikv = parse_kv(impl[i])
+            got = "reject" if ikv.get("impl", "").startswith("Err(") else ("accept" if ikv.get("impl") == "OK" else "?")
+            body = bytes.fromhex(f[3]).decode() if f[3] != "-" else ""
+            bad = None
+            if got != exp:
+                bad = "the request body %r must be %sed by the server's Parse() and was %sed" % (body, exp, got)
+            elif got == "accept" and canon_json_bytes(bytes.fromhex(ikv.get("reenc", "") if ikv.get("reenc", "-") != "-" else "")) != canon_json_bytes(body.encode()):
+                bad = "the accepted request body %r re-encodes to another document" % body
+            if bad:
+                propm.append((i, c, impl[i], model[i], [l for l in heads.get(f[1], []) if l.startswith("D ")], bad))
+        kinds["nullable-body-component"] = nxb
     for (i, c, im, mo, ctx, why) in propm[:3]:
         run.violation({"property": prop, "case": c, "context": ctx, "observed_impl": im[:2000], "model": mo[:2000], "broken": why}, c)
     if corr and not propm:
